@@ -53,23 +53,26 @@ CLAIMED = {
         technique="Lean 4 proof over translator-generated prox formulas + exact-rational differential correspondence",
         design="DESIGN.md §3 C11, §9"),
     "C01": dict(
-        text="Lean 4 theorems: coo_adjoint (for ANY entry list over a commutative star-ring, <E x, y> = <x, adjE E y>: swapping "
-             "indices and conjugating weights is the adjoint - removes the quantifier over x, y); applyF_append/compE/conjE (entry "
-             "lists add, compose as matrix products, conjugate as Conj does); adj_denote by structural induction over the Expr type "
-             "mirroring Compose/Add/Conj/Hstack/Vstack/Diag and every _adjoint_linop (Compose reverses, Add termwise, Conj(A).H = "
-             "Conj(A.H), Hstack<->Vstack same axis, Diag swaps axes) given the leaf pairs; leaf pairs proved at entry level for "
-             "Identity/Reshape/Slice/Embed and at index/loop level for Resize (C09 resize_transpose), Circshift (roll_inverse), "
-             "Down/Upsample, the 1/2/3-D block loop nests (scatter list is a permutation of the swapped gather list: multiset "
-             "statement with Nodup) and gridding = literally the index-swapped interpolate list for an arbitrary kernel in 1/2/3-D "
-             "(all about translator-generated Gen.Block / Gen.Interp). Tie: exact comparison of the implementation's matrices of A "
-             "and A.H (basis vectors + Gaussian-integer vector) with the model's entries for 19 leaf classes and random trees.",
-        note="Trusted: Lean kernel; translator (Gen.Block, Gen.Interp, formulas); the leaf-pair hypothesis of adj_denote is discharged "
-             "in Lean only for Identity/Reshape/Slice/Embed - for Transpose, Resize, Flip, Circshift, Down/Upsample, Sum/Tile, "
-             "Multiply/MatMul plumbing, blocks and interp through the wrapper it is validated by the exact correspondence; FFT, "
-             "NUFFT, convolution, wavelet, Kaiser-Bessel leaves and the MRI factories (Sense, ConvSense, ConvImage, "
-             "PtxSpatialExplicit) are decided by the dot-test search oracle only (their own properties C05/C06/C08/C10/C16 carry "
-             "theorems); IEEE rounding not modelled.",
-        technique="Lean 4 proof (entry-list adjoint + structural induction over operator trees) + exact differential correspondence",
+        text="Lean 4 theorems: coo_adjoint (for ANY entry list over a commutative star-ring, <E x, y> = <x, adjE E y>: removes the "
+             "quantifier over x, y); applyF_append/compE/conjE; adj_denote by structural induction over the Expr type mirroring "
+             "Compose/Add/Conj/Hstack/Vstack/Diag and every _adjoint_linop; and the leaf pairs discharged IN LEAN for all valid "
+             "(symbolic) parameters of Identity, Reshape, Slice, Embed, Flip, Circshift (any shifts/axes incl. repeated, negative, "
+             "None), Downsample/Upsample, Resize (N-d, differing ranks, default or explicit shifts, equal-shape early return), "
+             "Sum/Tile, Transpose (None or any permutation incl. negative entries, argsort inverse), Multiply (scalar or broadcast "
+             "array, conj flag, the Reshape*Sum*Multiply(conj) plumbing with _get_multiply_adjoint_sum_axes), "
+             "ArrayToBlocks/BlocksToArray (1-3 D, any batch, overlap/gap/tiling) and Interpolate/Gridding with spline kernels "
+             "(1-3 D) - the last two about the translator-generated loop nests (scatter list = permutation of the swapped gather "
+             "list; gridding = literally the index-swapped interpolate list); hence adj_denote_leaves: for every tree over those 17 "
+             "leaf classes <A x, y> = <x, A.H y> and swapped shapes hold with NO hypothesis, and normal_gram_leaves "
+             "(<A.N x, z> = <A x, A z>). Tie: translator (Gen.Block, Gen.Interp, formulas) + exact comparison of the implementation's "
+             "matrices of A and A.H (basis vectors + Gaussian-integer vector) with the model's entries for 19 leaf classes and "
+             "random trees.",
+        note="Trusted: Lean kernel; translator; hand-transcribed leaf models (Transpose, Sum/Tile, Slice/Embed, Multiply/MatMul "
+             "plumbing) tied by the exact correspondence; MatMul/RightMatMul leaf pairs are validated by the exact matrix "
+             "correspondence only (no Lean proof); FFT, NUFFT, convolution, wavelet, Kaiser-Bessel leaves and the MRI factories "
+             "(Sense, ConvSense, ConvImage, PtxSpatialExplicit) are decided by the dot-test search oracle here (their own properties "
+             "C05/C06/C08/C10/C16 carry theorems); IEEE rounding not modelled.",
+        technique="Lean 4 proof (entry-list adjoint, leaf pairs, structural induction over operator trees) + exact differential correspondence",
         design="DESIGN.md §3 C01, §9"),
     "C04": dict(
         text="Lean 4 theorems: normal_eq_default/normal_default (operators without an override get A.N = A.H*A acting as x -> "
